@@ -840,6 +840,23 @@ def width_deletes(line, k):
     return False
 
 
+def glued_digit(line, ipmap):
+    """INPUT-ONLY predicate of `ip-substitute-glued-digit`: the line has an IPv4 original of the history (read the way the
+    recogniser reads it: word boundary in front, it may stop inside a digit run) DIRECTLY followed by digits, and its substitute
+    followed by those digits spells a substitute issued to another original ('10.38.1.146' + '5' with 10.38.1.146 -> 10.230.230.1
+    gives the text of 10.230.230.15)."""
+    subs = set(ipmap.values())
+    for m in re.finditer(r"(?=((?:[0-9]{1,3}\.){3})([0-9]{1,3}))", line):
+        if m.start() > 0 and (line[m.start() - 1].isalnum() or line[m.start() - 1] == "_"):
+            continue
+        for n in range(1, len(m.group(2)) + 1):
+            a = m.group(1) + m.group(2)[:n]
+            rest = re.match(r"[0-9]+", line[m.start() + len(a):])
+            if rest and canonical_ip(a) and a in ipmap and ipmap[a] + rest.group(0) in subs - {ipmap[a]}:
+                return True
+    return False
+
+
 def classify(cfg, kind, seen, maps):
     """which listed finding (if any) the INPUT of this history is an instance of, for a failure about `kind`.
     All are one mechanism: the text of an original (or the short host name) occurs inside another original or
@@ -1031,7 +1048,8 @@ class Oracle(object):
                         if tout.count(sub) != want:
                             fail("call %d%s: %d occurrence(s) of %r went in, %d of its substitute %r came out: %r -> %r" % (
                                 idx, wm, tin.count(o), o, tout.count(sub), sub, li, lo),
-                                "ip", issued, "width-mode-garble" if excused(n) else None)
+                                "ip", issued, "width-mode-garble" if excused(n) else
+                                "ip-substitute-glued-digit" if glued_digit(li, ipmap) else None)
 
 
 # --------------------------------------------------------------------------- run one history
